@@ -229,8 +229,9 @@ def run(tier):
                        "distinct_nontrivial = distinct mutated documents (fault != none)" % sorted(slices))
     chk.cov["exhaustive"] = True
     chk.assumptions += ["base workflows use well separated names p,q,r,s (the name relations of C03 are kept out of this family)",
-                        "wrongly typed values are values no lenient conversion can repair (\"two\" for an int, \"maybe\"/3 for a bool, a string "
-                        "for a list, a list for a string); numeric strings such as \"2\" are not counted as wrongly typed",
+                        "type faults: every typed option site x every class of value; spec/Validate.tla Rule(site, cls) = reject (the property), "
+                        "accept (documented lossless conversions: null, \"2\" for a number, 2 for a float or a string, \"true\" for a boolean) or "
+                        "either (2.0 for an integer, a float/boolean for a string, null executable: both outcomes pass, the manner is still checked)",
                         "executables are not checked (checkExecutables=False); DoWhile placeholders are outside the family",
                         "the invalid-configuration family is ExperimentInvalidConfigurationError (+ subclasses); for the in-memory entry "
                         "point graphFromFlowIR an unwrapped errors.FlowIRException subclass is also taken as a typed refusal"]
